@@ -312,6 +312,9 @@ Definition child_creds (uc gc : creds) (set_gid set_uid : option nat) : option (
 
 Definition EPERM : Z := 1.
 
+(* execve: the saved set-user/group-ID becomes a copy of the effective one *)
+Definition exec_creds (c : creds) : creds := mkC (c_r c) (c_e c) (c_e c).
+
 (* ------------------------------------------------------------------ *)
 (* (b) uv_spawn                                                          *)
 (* ------------------------------------------------------------------ *)
@@ -424,7 +427,7 @@ Record sres := mkRes {
   r_mask : sigmask;                 (* the calling thread's signal mask on return *)
   r_child_mask : option sigmask;    (* the mask the forked child starts with (it empties it
                                        just before exec, process.c:405-408) *)
-  r_creds : option (creds * creds); (* uid and gid triples of the child that reached exec *)
+  r_creds : option (creds * creds); (* uid and gid triples of the exec'ed child *)
   r_trip : bool                     (* an assert-enabled build aborts inside uv_spawn:
                                        uv__close() of a descriptor <= 2 (core.c:651) *)
 }.
@@ -488,7 +491,11 @@ Definition uv_spawn (s : spec) (wo : list wans) : sres * list wans :=
       let masks := if s_pipe_fail s then (None, s_mask s)
                    else fork_sigmask (s_mask s) (s_fork_fail s) in
       let cr := match c with
-                | Some (CExec _) => child_creds (s_uid s) (s_gid s) (s_setgid s) (s_setuid s)
+                | Some (CExec _) =>
+                    match child_creds (s_uid s) (s_gid s) (s_setgid s) (s_setuid s) with
+                    | Some (u, g) => Some (exec_creds u, exec_creds g)
+                    | None => None
+                    end
                 | _ => None
                 end in
       let trip := (negb (s_pipe_fail s) && (error_wfd t1 fresh1 <=? 2)%nat)
